@@ -475,7 +475,7 @@ pub fn property() -> Property {
                 name: "deep-trees",
                 plan: |t| match t {
                     Tier::Quick => Plan::Skip,
-                    Tier::Thorough => Plan::Random { cases: 200_000, max_len: 900 },
+                    Tier::Thorough => Plan::Random { cases: 2_000_000, max_len: 900 },
                 },
                 case: case_t,
                 min_classes: &[],
